@@ -818,8 +818,8 @@ pub const C13: CheckDef = CheckDef {
         ctx.max_shrink.set(300);
         // half of the positions come from the general generator, half from mating nets and
         // sparse material (forced mates of different lengths, draw-by-material captures)
-        run_proptest(ctx, 13, ctx.share(ctx.tier.pick(6_000, 200_000)), eng_strategy(18, 40), eng_json, c13_case)?;
-        run_proptest(ctx, 113, ctx.share(ctx.tier.pick(8_000, 250_000)), c12_strategy(), eng_json, c13_case)
+        run_proptest(ctx, 13, ctx.share(ctx.tier.pick(12_000, 200_000)), eng_strategy(18, 40), eng_json, c13_case)?;
+        run_proptest(ctx, 113, ctx.share(ctx.tier.pick(16_000, 250_000)), c12_strategy(), eng_json, c13_case)
     },
     replay: |v| c13_case(&eng_from(v)?, &mut Stats::new()),
     rule: "metamorphic: position P (<= 20 men, no promotion move at the root, empty repetition history, Engine::default()) and mirror(P) (colours swapped, ranks flipped, rights swapped, same marker file) are each searched under their OWN pass boundaries; for every depth d both complete within the poll cap, the score committed with the limit at s_{d+1} must satisfy score(mirror) = negate(score(P)). When both searches end the deepening by themselves (mate score) their final scores and pass counts are compared too. Moves are not compared (tie-breaking may differ). evaluations = depth comparisons. Non-trivial = depth >= 1 or a non-zero score; distinct by (position key, depth).",
